@@ -45,6 +45,7 @@ type Provider struct {
 	states         sync.Map
 	envVarsEnabled bool
 	configured     bool
+	srcIsFile      bool
 }
 
 func NewProvider(conf *config.Configuration, processor rule.SetProcessor, logger zerolog.Logger) (*Provider, error) {
@@ -130,7 +131,17 @@ func (p *Provider) Start(_ context.Context) error {
 		return nil
 	}
 
-	if err := p.w.Add(p.src); err != nil {
+	// If the source is a single file, the directory holding it is watched: a watch on the file itself is
+	// a watch on its inode, and is gone as soon as the file is replaced by another one (as done by many
+	// tools, which write new contents into a new file and rename it to the old one), so that neither
+	// the new contents, nor any later change would be noticed.
+	watched := p.src
+	if fInfo, err := os.Stat(p.src); err == nil && !fInfo.IsDir() {
+		watched = filepath.Dir(p.src)
+		p.srcIsFile = true
+	}
+
+	if err := p.w.Add(watched); err != nil {
 		p.l.Error().Err(err).Msg("Failed to start rule definitions provider")
 
 		return err
@@ -187,6 +198,11 @@ func (p *Provider) ruleSetsChanged(evt fsnotify.Event) error {
 		Str("_event", evt.String()).
 		Str("_src", evt.Name).
 		Msg("Rule update event received")
+
+	if p.srcIsFile && evt.Name != p.src {
+		// an event for another file of the watched directory
+		return nil
+	}
 
 	var err error
 
